@@ -59,6 +59,11 @@ def run(ctx):
                                     n_match=0, trans_order="desc")
                 if len(c.trans_att) == 2:
                     break
+        elif k < 6:
+            # strongly correlated, well determined design (far, short baths a few kelvin apart); one time step: the recorded
+            # weight-order defect is immaterial there, so nothing is attributed to it
+            c = fibre.correlated_design_case(ctx.rng, nt=1, dT=(4.0 if k == 4 else 1.5), var_kind=("float" if k == 4 else "array"))
+            ctx.count("correlated far-bath design")
         else:
             c = gen(ctx, ctx.rng)
         run_one(ctx, c, known)
